@@ -171,12 +171,27 @@ Theorem C18_announce_head_subset : forall s h, In h (announce_list true s) ->
 Proof. exact announce_head_subset. Qed.
 Print Assumptions C18_announce_head_subset.
 
+(* Between restarts, since 1ed13b5 (delete_blob always un-reports): along completions, publishes, API and stream
+   deletions and restarts -- no death, nothing behind the daemon's back, no download abandoned after BlobFile.__init__
+   removed a file of another length (OTouch) -- everything reported as completed has its file AT EVERY MOMENT, not only
+   after a start.   completed_backed s := files_recorded s /\ forall k, In k (completed s) -> is_file (disk s) k. *)
+Theorem C18_api_keeps_completed_backed : forall ops s, forallb is_api_op_strict ops = true ->
+  completed_backed s -> completed_backed (run s ops).
+Proof. exact run_completed_backed. Qed.
+Print Assumptions C18_api_keeps_completed_backed.
+
+Theorem C18_start_establishes_completed_backed : forall s, files_only (disk s) -> completed_backed (restart s).
+Proof. exact restart_completed_backed. Qed.
+Print Assumptions C18_start_establishes_completed_backed.
+
 (* ===== Daemon start = BlobManager.setup followed by StreamManager.initialize_from_database (model: daemon_start):
    every managed stream whose sd blob is not verified is recovered -- the sd blob file is written again, the
    stream's rows are deleted and re-inserted as 'pending' (storage.recover_streams), and THEN
    ensure_completed_blobs_status marks those that have a file 'finished' -- and every stream's sd blob is loaded.
-   For every state s and every list L of streams (sd hash, sd length, content hashes) such that no DIRECTORY sits
-   under an sd name (a write into a directory fails while its completion callbacks still run): ===== *)
+   A stream is (sd hash, sd length, content hashes, "its sd blob file does not hold JSON"): such a damaged sd blob is
+   removed by the parser and (repaired behaviour) dropped from cache, completed set and table in the same step.
+   For every state s and every list L of streams such that no DIRECTORY or symlink loop sits under an sd name (a
+   write there fails while its completion callbacks still run): ===== *)
 Theorem C18_daemon_start_establishes : forall L s,
   (forall st, In st L -> is_dir (disk s) (st_sd st) = false) ->
   let t := daemon_start s L in
@@ -200,8 +215,10 @@ Theorem C18_daemon_start_announced_have_files : forall s L head h,
 Proof. exact daemon_start_announced_have_files. Qed.
 Print Assumptions C18_daemon_start_announced_have_files.
 
-(* the daemon start only ever adds files (re-created sd blobs), it removes none *)
+(* the daemon start only ever adds files (re-created sd blobs); the one file it may remove is the sd blob of a
+   stream whose sd blob file does not hold JSON (removed together with its row and its report, see inv3 above) *)
 Theorem C18_daemon_start_keeps_files : forall s L h,
+  (forall st, In st L -> st_not_json st = true -> st_sd st <> h) ->
   is_file (disk s) h = true -> is_file (disk (daemon_start s L)) h = true.
 Proof. exact daemon_start_disk_grows. Qed.
 Print Assumptions C18_daemon_start_keeps_files.
@@ -252,12 +269,30 @@ Example C18_publish_crash :
   = ([hB; hA], Some Finished, Some Finished, None, 2%nat).
 Proof. vm_compute. reflexivity. Qed.
 
-(* BETWEEN restarts the completed set is NOT always backed by files: delete_blob on a hash that is not in
-   BlobManager.blobs (a published blob) removes the file but leaves completed_blob_hashes alone.  The property
-   speaks about starts only; this run documents the gap and is replayed against the implementation. *)
-Example C18_runtime_gap_between_restarts :
-  let s := run init [OPublish [(hA, 5)] (hB, 7); ODelete [hA] true] in
-  (mem hA (completed s), is_file (disk s) hA, db_status (db s) hA, completed (restart s)) = (true, false, None, [hB]).
+(* deleting a published blob through the API (its BlobFile was never entered in BlobManager.blobs) removes file,
+   row AND report; before 1ed13b5 (delete_blob_old) the hash stayed in completed_blob_hashes without a file *)
+Example C18_delete_unreports_old_refuted :
+  let s := run init [OPublish [(hA, 5)] (hB, 7)] in
+  let t := run s [ODelete [hA] true] in
+  let u := delete_blob_old s hA in
+  ((mem hA (completed t), is_file (disk t) hA, db_status (db t) hA), (mem hA (completed u), is_file (disk u) hA))
+  = ((false, false, None), (true, false)).
+Proof. vm_compute. reflexivity. Qed.
+
+(* a download onto a DIRECTORY fails (the rename cannot replace it): since 82794e2 nothing is marked or recorded;
+   onto a dangling link or a symlink loop the rename replaces the link by the file *)
+Example C18_failed_write_records_nothing :
+  let s := run init [OExtDir hA; OExtLoop hB; OExtLink hC None] in
+  (snd (step s (OComplete hA 5)), completed (fst (step s (OComplete hA 5))), db_status (db (fst (step s (OComplete hA 5)))) hA,
+   snd (step s (OComplete hB 6)), is_file (disk (fst (step s (OComplete hB 6)))) hB,
+   snd (step s (OComplete hC 7)), is_file (disk (fst (step s (OComplete hC 7)))) hC)
+  = (RFailed, [], None, RDone, true, RDone, true).
+Proof. vm_compute. reflexivity. Qed.
+
+(* a death in the middle of writing '<hash>.tmp' (1cc6188) leaves nothing under the blob's name *)
+Example C18_crash_mid_write_leaves_no_blob :
+  let s := run init [OCrashWrite hA 5 3; ORestart; ORestart] in
+  (is_file (disk s) hA, db_status (db s) hA, completed s) = (false, None, []).
 Proof. vm_compute. reflexivity. Qed.
 
 (* A DIRECTORY named like a blob hash is not listed by the scan (item.is_file()): a 'finished' row for it is
@@ -328,8 +363,32 @@ Proof. vm_compute. reflexivity. Qed.
    blob file, and afterwards BOTH blob files are 'finished'; the next start reports both *)
 Example C18_daemon_start_recovers_stream :
   let s := run init [OPublish [(hA, 5)] (hB, 7); OExtRemove hB] in
-  let t := daemon_start s [((hB, 7), [hA])] in
+  let t := daemon_start s [(hB, 7, [hA], false)] in
   (is_file (disk s) hB, is_file (disk t) hB, db_status (db t) hA, db_status (db t) hB, completed t,
    length (completed (restart t)), announce_list true t)
   = (false, true, Some Finished, Some Finished, [hB; hA], 2%nat, [hB]).
+Proof. vm_compute. reflexivity. Qed.
+
+(* a symbolic link that leads back to itself under a blob-hash name (scandir lists it, is_file() raises ELOOP): not
+   a file -- a 'finished' row for it is downgraded, it is not reported, and the start goes through *)
+Example C18_symlink_loop_is_no_file :
+  let s := run init [OComplete hA 5; OExtRemove hA; OExtLoop hA; OExtLoop hB; ORestart] in
+  (is_file (disk s) hA, db_status (db s) hA, db_status (db s) hB, completed s, alive s)
+  = (false, Some Pending, None, [], true).
+Proof. vm_compute. reflexivity. Qed.
+
+(* the sd blob hB of a managed stream is overwritten behind the daemon's back.
+   t: with bytes that are not JSON -> the daemon start removes the file AND the report AND the row;
+   u: the same under the behaviour before the repair -> the file is gone, yet hB is still reported as completed,
+      recorded 'finished' and on the announce list (the old start-up breaks clauses 1 and 3);
+   v: with a descriptor that is valid JSON but has the wrong stream hash -> nothing is removed. *)
+Example C18_damaged_sd_old_refuted :
+  let s := run init [OPublish [(hA, 5)] (hB, 7); OExtFile hB 7] in
+  let t := daemon_start s [(hB, 7, [hA], true)] in
+  let u := daemon_start_old s [(hB, 7, [hA], true)] in
+  let v := daemon_start s [(hB, 7, [hA], false)] in
+  ((is_file (disk t) hB, mem hB (completed t), db_status (db t) hB, announce_list true t),
+   (is_file (disk u) hB, mem hB (completed u), db_status (db u) hB, announce_list true u),
+   (is_file (disk v) hB, mem hB (completed v), db_status (db v) hB))
+  = ((false, false, None, []), (false, true, Some Finished, [hB]), (true, true, Some Finished)).
 Proof. vm_compute. reflexivity. Qed.
